@@ -334,3 +334,5 @@ def run(ctx):
     # shared with C07.f: a sliced / copied binning carries no cached edge representation of its parent
     from rules import c07 as _c07
     _c07.check_binning_copies(ctx, "C16.c", m)
+    # merging bins keeps the covered measure: one map per axis, built for that axis (shared with C10)
+    ctx.borrow("C10", ("merge_bins:amount-map", "merge_bins:all-axes", "HistogramBase.merge_bins:axis-resolved"), "C16.c", floor=3)
